@@ -249,6 +249,9 @@ def run(chk):
         rows_ = ''.join('%g ' % (1e9 * (q + 1)) + ' '.join('.%d' % (1 + (q + j) % 9) for j in range(nfld)) + '\n' for q in range(2))
         inputs.append(('vd', 'x.npd', ('#NPD\n#:version 1.0\n#:ports %d\n#:frequencies 2\n#:parameters %s\n#:z0 %s\n%s' % (
             ports_, rng.choice([',', ', ', ' ,']).join(pick), ' '.join('50 0j' for _ in range(ports_)), rows_)).encode()))
+    # a file that sets precisions in its header and is rejected further down
+    for tail_ in ('1e9 0.5 oops\n', '1e9 0.5\n', ''):
+        inputs.append(('vd', 'x.npd', ('#NPD\n#:version 1.0\n#:ports 1\n#:frequencies 1\n#:fprecision 1\n#:dprecision 2\n#:parameters Sri\n#:z0 50 0j\n' + tail_).encode()))
     # formats the saver refuses to write, precisions the setters refuse, counts that do not fit an int
     for par_, ports_, row_ in (('Zdb', 1, '3.0 45.0'), ('YdB', 1, '3.0 45.0'), ('HdB', 2, '1 2 3 4 5 6 7 8'), ('Sri,il', 1, '0.5 0.25'), ('il', 1, ''), ('Sri,IL', 2, '.1 .2 .3 .4 .5 .6 .7 .8 1 2')):
         inputs.append(('vd', 'x.npd', ('#NPD\n#:version 1.0\n#:ports %d\n#:frequencies 1\n#:parameters %s\n#:z0 %s\n1e9 %s\n' % (ports_, par_, ' '.join(['50 0j'] * ports_), row_)).encode()))
@@ -373,6 +376,10 @@ def run(chk):
                 # no partial object is left behind: the object is empty after a refused file
                 if d is None or (d['type'], d['rows'], d['cols'], d['nf']) != (0, 0, 0, 0):
                     chk.violation('partial-vd', '%s: rejected, but the object still holds part of what was read: %s' % (tag, dig[:120]), sc)
+                elif (d['ft'], d['fp'], d['dp']) != (0, 7, 6):
+                    # (the object was fresh: file type automatic, precisions 7 and 6)
+                    chk.violation('partial-vd', '%s: rejected, but the file type / precisions of the rejected file stay in the object (file type %d, precisions %d / %d; before the call: 0, 7 / 6)' % (
+                        tag, d['ft'], d['fp'], d['dp']), sc)
                 continue
             t, r, c, nf = d['type'], d['rows'], d['cols'], d['nf']
             okdims = (t in (1, 4, 5) and r == c) or (t in (2, 3, 6, 7, 8, 9) and r == 2 and c == 2) or (t == 10 and r == 1)
